@@ -84,10 +84,23 @@ def kkt_types(variant: str, tier: str, rng: random.Random) -> list[dict]:
     return out
 
 
+# Histories of ONE model object on several data sets (specs/MdcevSeq.tla).  a / b: the rows of the first and the second data
+# set as derivations <<p, q>> of the data the model was generated with (good i sees the data of type ts[i] + p + q i, cyclically);
+# la / lb: the row labels (index of the data frame) of the two data sets.
+SCENARIOS = [
+    dict(a=[(0, 0), (2, 1)], b=[(1, 0), (0, 2)], la=[0, 1], lb=[0, 1], what='default index 0..n-1 in both data sets'),
+    dict(a=[(0, 0)], b=[(1, 1)], la=[0], lb=[0], what='one observation, base and policy values'),
+    dict(a=[(0, 0), (3, 0)], b=[(2, 0), (1, 1)], la=[5, 6], lb=[5, 6], what='offset index, the same in both data sets'),
+    dict(a=[(0, 0), (1, 2)], b=[(1, 0), (3, 1)], la=[0, 1], lb=[1, 0], what='same labels, attached to the other row in the second data set'),
+    dict(a=[(0, 0), (2, 0)], b=[(0, 1), (4, 0)], la=[0, 1], lb=[2, 3], what='the second data set continues the index of the first'),
+    dict(a=[(0, 0), (1, 0)], b=[(3, 1), (2, 2)], la=[7, 7], lb=[7, 7], what='one label for every row of both data sets'),
+]
+
+
 def instance(tier: str, seed: int, mode: str) -> dict:
-    rng = random.Random(seed * 7919 + (1 if mode == 'exact' else 2))
+    rng = random.Random(seed * 7919 + (2 if mode == 'kkt' else 1))      # seq: the types of the exact mode
     quick = tier == 'quick'
-    types = {v: (exact_types if mode == 'exact' else kkt_types)(v, tier, rng) for v in VARIANTS}
+    types = {v: (kkt_types if mode == 'kkt' else exact_types)(v, tier, rng) for v in VARIANTS}
     maxg = 3 if quick else 4
     if mode == 'kkt':
         maxg = 3
@@ -103,6 +116,9 @@ def instance(tier: str, seed: int, mode: str) -> dict:
         Ms=['0', '1'] if quick else ['1', '-1/2'],
         Labelings=labs,
         ProbeS=['3/2', '4'],
+        Scenarios=SCENARIOS,
+        SeqThin=16 if quick else 8,
+        SeqSalt=seed % 997,
     )
 
 
@@ -130,10 +146,21 @@ def module(inst: dict, name: str = 'MCMdcev', base: str = 'Mdcev') -> str:
     for k in ('Budgets', 'Scales', 'Ms', 'ProbeS'):
         lines.append(f'G_{k} == {{' + ', '.join(qlit(q) for q in inst[k]) + '}')
     lines.append('G_Labelings == {' + ', '.join('<<' + ', '.join(ilit(x) for x in l) + '>>' for l in inst['Labelings']) + '}')
+    if base == 'MdcevSeq':
+        def rows(rs):
+            return '<<' + ', '.join(f'<<{p}, {q}>>' for p, q in rs) + '>>'
+
+        def labels(ls):
+            return '<<' + ', '.join(ilit(x) for x in ls) + '>>'
+
+        lines.append('G_Scenarios == <<' + ', '.join(
+            f'[a |-> {rows(sc["a"])}, b |-> {rows(sc["b"])}, la |-> {labels(sc["la"])}, lb |-> {labels(sc["lb"])}]' for sc in inst['Scenarios']) + '>>')
     lines.append('====')
     return '\n'.join(lines) + '\n'
 
 
+SEQ_INVARIANTS = ['SeqForecastIsOptimum', 'SeqOnCurrentData', 'SeqRecordedData', 'SeqSameDataSameForecast', 'SeqBaseReproduced',
+                  'SeqHistoryShape', 'SeqScenarioOK']
 MODEL_INVARIANTS = ['StagesOK', 'SolvedIsKkt', 'KktUnique', 'ChosenIsSupport', 'StopIsSafe', 'NoNegativeDemand', 'InverseInverts']
 
 
@@ -141,12 +168,16 @@ def cfg(inst: dict, mutation: str = 'none', emit: bool = True, invariants=None, 
     out = [f'SPECIFICATION {spec}', 'CONSTANTS', f' Mutation = "{mutation}"', f' Mode = "{inst["Mode"]}"',
            f' MinGoods = {inst["MinGoods"]}', f' MaxGoods = {inst["MaxGoods"]}']
     out += [f' {k} <- G_{k}' for k in ('Types', 'Variants', 'Budgets', 'Scales', 'Ms', 'ProbeS', 'Labelings')]
+    seq = inst['Mode'] == 'seq'
+    if seq:
+        out += [' Scenarios <- G_Scenarios', f' SeqThin = {inst["SeqThin"]}', f' SeqSalt = {inst["SeqSalt"]}']
+        out[0] = 'SPECIFICATION SeqSpec'
     if extra:
         out.append(extra)
-    for i in (MODEL_INVARIANTS if invariants is None else invariants):
+    for i in ((MODEL_INVARIANTS + (SEQ_INVARIANTS if seq else [])) if invariants is None else invariants):
         out.append(f'INVARIANT {i}')
     if emit:
-        out.append('INVARIANT EmitInv')
+        out.append('INVARIANT SeqEmitInv' if seq else 'INVARIANT EmitInv')
     return '\n'.join(out) + '\n'
 
 
@@ -266,13 +297,14 @@ def close(a, b, rel, abs_=0.0) -> bool:
 
 
 PROBES = [0.5, 1.0, 3.0, 10.0]
+SEQ_PROBES = [1.0, 3.0]      # histories: every row of every step is probed
 
 
 def _exc(e) -> str:
     return f'{type(e).__name__}: {str(e)[:200]}'
 
 
-def check_pieces(c, model, db, epsv, info, mism, engine_probes, facts):
+def check_pieces(c, model, db, epsv, info, mism, engine_probes, facts, probes=None):
     """numeric utility = symbolic utility = spec term; derivative = spec term = finite difference = engine gradient;
     optimal consumption inverts the derivative."""
     from biogeme.expressions import Beta, Numeric
@@ -291,7 +323,7 @@ def check_pieces(c, model, db, epsv, info, mism, engine_probes, facts):
         def dU(x):
             return float(model.derivative_utility_one_alternative(the_id=key, the_consumption=x, epsilon=e, one_observation=db))
 
-        for x in ([] if is_out else [0.0]) + PROBES:
+        for x in ([] if is_out else [0.0]) + (PROBES if probes is None else probes):
             try:
                 u_code = U(x)
                 d_code = dU(x)
@@ -551,6 +583,244 @@ def replay(item, classes=None, corrupt=None):
                              detail=dict(base_facts, labels_a=item['labs'][ref[0]], x_a=ref[1], labels_b=item['labs'][li], x_b=xs),
                              facts=dict(base_facts, kind='relabelling', labels=list(item['labs'][li]), budget_missed=miss)))
     return dict(mism=mism, traces=traces, tinfo=tinfo, n=n_eval, runs=len(item['labs']), done=len(per_lab), sample=sample)
+
+
+# ------------------------------------------------------------------------------------ one model object, several data sets
+def seq_key(rec: dict) -> str:
+    return inst_key(rec['c']) + json.dumps([rec['seq']['a'], rec['seq']['b'], rec['seq']['la'], rec['seq']['lb']])
+
+
+def seq_steps(rec: dict) -> list:
+    """[(step number, name of the data set, [history entries of the step in row order])]; the entries of a step on a data
+    set that was seen before carry no terms of their own: they get those of the first step on that data set."""
+    first = {}
+    out = []
+    for s, name in enumerate(rec['plan'], start=1):
+        ents = sorted((h for h in rec['hist'] if h['step'] == s), key=lambda h: h['row'])
+        if name in first:
+            ents = [dict(h, goods=g['goods']) for h, g in zip(ents, first[name])]
+        else:
+            first[name] = ents
+        out.append((s, name, ents))
+    return out
+
+
+def build_seq(c: dict, goods: list, lab: list, classes=None):
+    """ONE model object whose baseline (and mu) utilities read the columns of the observation -> (model, info).
+    The baseline utility of good i is written in three ways, each evaluating to the column value V."""
+    from biogeme.expressions import Beta, Numeric, Variable
+    from biogeme import mdcev as M
+
+    v = c['v']
+    n = c['n']
+    keys = [int(lab[i]) for i in range(n)]
+    out_key = keys[c['out'] - 1] if c['out'] else None
+    sigma = fr(c['sc'])
+    bu, gam, al, pr, mu = {}, {}, {}, {}, {}
+    for i, g in enumerate(goods):
+        key = keys[i]
+        if i % 3 == 0:
+            bu[key] = Beta(_name('b', key), 0.5, None, None, 0) * Variable(f'twice_u{i + 1}')
+        elif i % 3 == 1:
+            bu[key] = Numeric(1.0) * Variable(f'u{i + 1}')
+        else:
+            bu[key] = Beta(_name('c', key), 1.0, None, None, 1) * Variable(f'u{i + 1}') + Variable('zero')
+        gv = float(fr(g['gam']))
+        gam[key] = None if key == out_key else (Numeric(gv) if i % 2 == 0 else Beta(_name('gamma', key), gv, 0.0001, None, 0))
+        av = float(fr(g['al']))
+        al[key] = Beta(_name('alpha', key), av, 0, 1, 0) if i % 2 == 0 else Numeric(av)
+        pr[key] = Numeric(float(fr(g['pr'])))
+        mu[key] = Variable(f'mu{i + 1}') if i % 2 == 0 else Numeric(1.0) * Variable(f'mu{i + 1}')
+    scale = None if sigma == 0 else Beta('scale', float(sigma), 0.0001, None, 0)
+    prices = pr if c['up'] else None
+    classes = classes or {}
+    if v == 'gamma':
+        model = classes.get(v, M.GammaProfile)('m', bu, gam, scale_parameter=scale, prices=prices)
+    elif v == 'translated':
+        model = classes.get(v, M.Translated)('m', bu, gam, alpha_parameters=al, scale_parameter=scale)
+    elif v == 'generalized':
+        model = classes.get(v, M.Generalized)('m', bu, gam, alpha_parameters=al, scale_parameter=scale, prices=prices)
+    else:
+        model = classes.get(v, M.NonMonotonic)('m', bu, gam, mu_utilities=mu, alpha_parameters=al, scale_parameter=scale)
+    ogi = model.outside_good_index
+    info = dict(keys=keys, out_key=out_key, index_to_key=list(model.index_to_key), outside_good_index=ogi,
+                label_equals_outside_position=bool(out_key is not None and any(k == ogi and k != out_key for k in keys)),
+                positional=list(model.index_to_key) == sorted(keys) and sorted(keys) == list(range(n)))
+    return model, info
+
+
+def seq_frame(ents: list, labels: list):
+    """The data frame of one data set: one row per history entry, the columns the model reads, the given row labels."""
+    import pandas as pd
+
+    rows = []
+    for h in ents:
+        row = {'one': 1.0, 'two': 2.0, 'zero': 0.0}
+        for i, g in enumerate(h['goods']):
+            V = float(terms.ev(g['V']))
+            row[f'u{i + 1}'] = V
+            row[f'twice_u{i + 1}'] = 2.0 * V
+            row[f'mu{i + 1}'] = float(fr(g['mu']))
+        rows.append(row)
+    return pd.DataFrame(rows, index=[int(x) for x in labels])
+
+
+def replay_seq(item, classes=None):
+    """One history of specs/MdcevSeq.tla on the real classes: ONE model object; for every step of the plan a data frame with the
+    rows and row labels of the step is forecast through the public forecast() (two draws per row), then row by row
+    (Database.mdcev_row_split) through forecast_bisection_one_draw (recorded for MdcevTrace), the pieces are compared with the
+    specification's terms FOR THAT ROW and the library's validation() runs on the first row.
+    -> same shape as replay()."""
+    import numpy as np
+    from biogeme.database import Database
+
+    rec = item['rec']
+    c = rec['c']
+    v = c['v']
+    B = float(fr(c['B']))
+    lab = item['lab']
+    mism, traces, tinfo = [], [], {}
+    n_eval = 0
+    done = 0
+    sample = None
+    base_facts = dict(variant=v, mode='seq', outside=bool(c['out']), prices=bool(c['up']), scale=fr(c['sc']) != 0, labels=list(lab),
+                      sequence=True, row_labels=[list(rec['seq']['la']), list(rec['seq']['lb'])])
+    steps = seq_steps(rec)
+    try:
+        model, info = build_seq(c, steps[0][2][0]['goods'], lab, classes)
+    except Exception as ex:  # noqa
+        return dict(mism=[dict(key=f'{v}:seq:build:exception', detail=dict(base_facts, error=_exc(ex)), facts=dict(base_facts, kind='build-exception'))],
+                    traces=[], tinfo={}, n=0, runs=len(rec['hist']), done=0, sample=None)
+    base_facts.update(label_equals_outside_position=info['label_equals_outside_position'], labels_are_positions=info['positional'])
+    keys = info['keys']
+    history = []
+    for s, name, ents in steps:
+        labels = rec['seq']['la'] if name == 'a' else rec['seq']['lb']
+        sfacts = dict(base_facts, step=s, data_set=name, seen_before=name in [x[1] for x in steps[:s - 1]])
+        db = Database('base' if name == 'a' else 'policy', seq_frame(ents, labels))
+        epss = []
+        for h in ents:
+            eps = np.zeros(c['n'])
+            for i, g in enumerate(h['goods']):
+                eps[model.key_to_index[keys[i]]] = float(terms.ev(g['eps']))
+            epss.append(eps)
+        want = [[fr(q) for q in h['x']] for h in ents]
+        # ---- the public entry point on the whole data set
+        public = None
+        try:
+            dfs = model.forecast(database=db, total_budget=B, epsilons=[np.vstack([e, e]) for e in epss])
+            n_eval += 1
+            if len(dfs) != len(ents) or any(list(d.columns) != sorted(keys) or len(d) != 2 for d in dfs):
+                mism.append(dict(key=f'{v}:seq:forecast-frame', detail=dict(sfacts, frames=len(dfs), rows=len(ents)), facts=dict(sfacts, kind='seq-forecast-frame')))
+            else:
+                public = [[{int(k): float(d[k].iloc[r]) for k in d.columns} for r in range(2)] for d in dfs]
+        except Exception as ex:  # noqa
+            mism.append(dict(key=f'{v}:seq:forecast-public:exception', detail=dict(sfacts, error=_exc(ex)),
+                             facts=dict(sfacts, kind='seq-forecast-public-exception', error_type=type(ex).__name__)))
+        try:
+            row_dbs = db.mdcev_row_split()
+        except Exception as ex:  # noqa
+            mism.append(dict(key=f'{v}:seq:row-split:exception', detail=dict(sfacts, error=_exc(ex)), facts=dict(sfacts, kind='seq-row-split-exception')))
+            continue
+        for r, h in enumerate(ents):
+            rfacts = dict(sfacts, row=r + 1, row_label=int(labels[r]))
+            c_row = dict(c, goods=h['goods'])
+            row_db = row_dbs[r]
+            exp_show = [str(q) for q in want[r]]
+            if public is not None:
+                for dr in range(2):
+                    xs = [public[r][dr][k] for k in keys]
+                    if not all(close(xs[i], float(want[r][i]), 1e-6, 1e-6) for i in range(c['n'])):
+                        mism.append(dict(key=f'{v}:seq:forecast-public-vs-spec',
+                                         detail=dict(rfacts, draw=dr, expected=exp_show, observed=xs, history=history[-4:]),
+                                         facts=dict(rfacts, kind='seq-forecast-public', budget_missed=abs(sum(xs) - B) > 1e-6)))
+                        break
+            epsv = {keys[i]: float(terms.ev(g['eps'])) for i, g in enumerate(h['goods'])}
+            n_eval += check_pieces(c_row, model, row_db, epsv, info, mism, (1.0,) if item.get('engine') == (s, r + 1) else (), dict(rfacts),
+                                   probes=SEQ_PROBES)
+            if r == 0 and s in item.get('validation', ()):
+                try:
+                    msgs = model.validation(one_row=row_db)
+                    n_eval += 1
+                    if msgs:
+                        mism.append(dict(key=f'{v}:seq:validation-messages', detail=dict(rfacts, messages=msgs[:3]), facts=dict(rfacts, kind='seq-validation')))
+                except Exception as ex:  # noqa
+                    mism.append(dict(key=f'{v}:seq:validation:exception', detail=dict(rfacts, error=_exc(ex)), facts=dict(rfacts, kind='seq-validation-exception')))
+            try:
+                x, tries, chosen = record_forecast(model, row_db, B, epss[r])
+            except Exception as ex:  # noqa
+                mism.append(dict(key=f'{v}:seq:forecast:exception', detail=dict(rfacts, error=_exc(ex)),
+                                 facts=dict(rfacts, kind='seq-forecast-exception', error_type=type(ex).__name__)))
+                continue
+            n_eval += 1
+            if set(x) != set(keys):
+                mism.append(dict(key=f'{v}:seq:forecast:labels', detail=dict(rfacts, returned=sorted(x)), facts=dict(rfacts, kind='seq-forecast-labels')))
+                continue
+            xs = [x[k] for k in keys]
+            done += 1
+            history.append(dict(step=s, data_set=name, row=r + 1, row_label=int(labels[r]), observed=xs, expected=exp_show))
+            bad = [i + 1 for i in range(c['n']) if not close(xs[i], float(want[r][i]), 1e-8, 1e-8)]
+            if bad:
+                # is it the answer to an EARLIER row of the history (something computed before was used again)?
+                stale = [dict(step=p['step'], row=p['row']) for p in history[:-1]
+                         if all(close(a, b, 1e-8, 1e-8) for a, b in zip(xs, p['observed']))]
+                mism.append(dict(key=f'{v}:seq:forecast-vs-spec',
+                                 detail=dict(rfacts, expected=exp_show, observed=xs, goods=bad, budget=str(fr(c['B'])),
+                                             equals_earlier_forecast=stale[:2], history=history[-5:-1]),
+                                 facts=dict(rfacts, kind='seq-forecast-value', budget_missed=abs(sum(xs) - B) > 1e-7, stale=bool(stale))))
+            tid = f"{item['id']}/s{s}r{r + 1}"
+            try:
+                traces.append(make_trace(tid, c_row, info, x, tries, chosen, None))
+                tinfo[tid] = dict(rfacts, out_key=info['out_key'], observed=xs, budget=str(fr(c['B'])), budget_missed=abs(sum(xs) - B) > 1e-7)
+            except (OverflowError, terms.Undefined, ValueError) as ex:
+                mism.append(dict(key=f'{v}:seq:forecast:not-a-point', detail=dict(rfacts, observed=xs, error=_exc(ex)), facts=dict(rfacts, kind='seq-forecast-nonfinite')))
+    if history:
+        sample = dict(variant=v, labels=list(lab), outside_label=info['out_key'], budget=str(fr(c['B'])), one_model_object=True,
+                      row_labels=dict(first=list(rec['seq']['la']), second=list(rec['seq']['lb'])), history=history)
+    return dict(mism=mism, traces=traces, tinfo=tinfo, n=n_eval, runs=len(rec['hist']), done=done, sample=sample)
+
+
+def cached_by_row_label_classes() -> dict:
+    """Model classes that remember the baseline utility they computed for a ROW LABEL (index of the data frame) and use it again
+    for any later observation of that label -- negative control only, built from the real classes."""
+    from biogeme import mdcev as M
+
+    def wrap(base):
+        class RemembersRowLabel(base):
+            def calculate_baseline_utility(self, alternative_id, one_observation):
+                memo = self.__dict__.setdefault('_by_row_label', {})
+                key = (alternative_id, one_observation.data.index[0])
+                if key not in memo:
+                    memo[key] = super().calculate_baseline_utility(alternative_id=alternative_id, one_observation=one_observation)
+                return memo[key]
+
+        return RemembersRowLabel
+
+    return dict(gamma=wrap(M.GammaProfile), translated=wrap(M.Translated), generalized=wrap(M.Generalized), nonmono=wrap(M.NonMonotonic))
+
+
+def seq_selfcheck(rec) -> list[str]:
+    """The emitted history is what the module says it is (machinery check)."""
+    probs = []
+    B = fr(rec['c']['B'])
+    for s, name, ents in seq_steps(rec):
+        rows = rec['seq'][name]
+        if [h['row'] for h in ents] != list(range(1, len(rows) + 1)):
+            probs.append(f'step {s}: rows {[h["row"] for h in ents]} recorded for {len(rows)} rows')
+        for h in ents:
+            if h['kkt'] != 'ok':
+                probs.append(f'step {s} row {h["row"]}: verdict {h["kkt"]}')
+            if sum(fr(q) for q in h['x']) != B:
+                probs.append(f'step {s} row {h["row"]}: expected consumptions do not exhaust the budget')
+            lam = None
+            for i, g in enumerate(h['goods']):
+                xi = fr(h['x'][i])
+                if xi > 0:
+                    mu = evx(g['dU'], xi)
+                    if lam is not None and not close(mu, lam, 1e-9):
+                        probs.append(f'step {s} row {h["row"]}: marginal utilities of the consumed goods differ')
+                    lam = mu
+    return probs
 
 
 # ------------------------------------------------------------------------------------ spec self-consistency
